@@ -190,3 +190,47 @@ func BadPosOneBranch(db *lib.Lib, prefix []byte, fromStart bool) int {
 	}
 	return n
 }
+
+type keepIt struct {
+	it  *lib.Iter
+	key []byte
+}
+
+func cp(in []byte) []byte {
+	out := make([]byte, len(in))
+	copy(out, in)
+	return out
+}
+
+func OkKeepCopied(k *keepIt) {
+	k.it.Next()
+	k.key = cp(k.it.Key())
+}
+
+func OkKeepCopiedVar(k *keepIt) [][]byte {
+	var all [][]byte
+	for k.it.First(); k.it.Valid(); k.it.Next() {
+		raw := k.it.Key()
+		all = append(all, cp(raw))
+	}
+	k.key = nil
+	return all
+}
+
+func BadKeepRaw(k *keepIt) {
+	k.it.Next()
+	k.key = k.it.Key()
+}
+
+func BadKeepRawVar(k *keepIt) {
+	raw := k.it.Key()
+	k.key = raw
+}
+
+func BadKeepCollected(k *keepIt) [][]byte {
+	var all [][]byte
+	for k.it.First(); k.it.Valid(); k.it.Next() {
+		all = append(all, k.it.Key())
+	}
+	return all
+}
